@@ -285,6 +285,17 @@ def plan_C19(seed, run, engine, tier="quick", entry=None):
     for o in ops:
         if o["knobs"]["tol"] < floor:
             o["knobs"]["tol"] = float(G.sig3(floor, 3))
+        # degenerate problems (rank-deficient SVC duals, duplicated columns, n < p) often cannot
+        # reach a tight tolerance at all: a 300 x 3000-epoch budget then only burns the run's wall
+        # cap (8 % of the SVC runs were lost as inconclusive).  100 x 1000 is still two orders of
+        # magnitude beyond what these problem sizes need when they do converge.
+        if o["op"] == "quiesce":
+            o.setdefault("budget", [100, 1000])
+        else:
+            o["knobs"]["max_iter"] = min(o["knobs"].get("max_iter", 100), 100 if solver not in ("FISTA", "GramCD", "LBFGS") else 5000)
+            for kk in ("max_epochs",):
+                if kk in o["knobs"]:
+                    o["knobs"][kk] = min(o["knobs"][kk], 1000)
     plan = P._mk("C19", seed, run, engine, prob, ops, rng)
     if entry is not None:
         plan["forced_entry"] = int(entry)
